@@ -264,9 +264,9 @@ pub fn c05(tier: Tier) -> PropertyDef {
         rule: "M-TRACE-MESSY streams through parse_lifecycles_buffered_from_stream (pre-filled and rendez-vous paced input, fresh and pre-populated table); oracle: output == input (order, fields) except lifecycle, id != 0, id in final table with the message's ECU. Non-trivial: >=2 lifecycles on one ECU and (a merge happened = more ids allocated than delivered, or a message was observably held back).",
         assumptions: vec!["lifecycle ids are process global; merges are detected by probing Lifecycle::new before/after the run"],
         subs: vec![
-            sub("messy_short", tier.pick(80_000, 2_000_000), messy(3, 40), c05_check).rates(&[("merge_happened", 0.02), ("ge2_lifecycles_one_ecu", 0.3), ("held_back_observed", 0.03)]).boxed(),
-            sub("messy_long", tier.pick(4_000, 100_000), messy(3, 400), c05_check).rates(&[("merge_happened", 0.2)]).boxed(),
-            sub("prepopulated", tier.pick(20_000, 500_000), (prop::collection::vec(ev(3), 2..80), any::<u16>()), c05_prepop).rates(&[("prepopulated_ge2", 0.2)]).boxed(),
+            sub("messy_short", tier.pick(400_000, 6_000_000), messy(3, 40), c05_check).rates(&[("merge_happened", 0.02), ("ge2_lifecycles_one_ecu", 0.3), ("held_back_observed", 0.03)]).boxed(),
+            sub("messy_long", tier.pick(20_000, 300_000), messy(3, 400), c05_check).rates(&[("merge_happened", 0.2)]).boxed(),
+            sub("prepopulated", tier.pick(100_000, 1_500_000), (prop::collection::vec(ev(3), 2..80), any::<u16>()), c05_prepop).rates(&[("prepopulated_ge2", 0.2)]).boxed(),
         ],
         workers: 16,
     }
@@ -277,9 +277,9 @@ pub fn c06(tier: Tier) -> PropertyDef {
         rule: "M-TRACE-MESSY streams; at every call of the outflow closure the message's lifecycle is looked up through a ReadHandle in the same thread and (synchronous hand-shake) through a cloned handle owned by another thread; variant with a consumer thread behind sync_channel(0|1|8). Non-trivial: >=2 lifecycles on one ECU or a merge or an observed hold-back.",
         assumptions: vec!["evmap's publication semantics are trusted; only the detector's use (update+refresh before release) is tested", "schedules explored are those induced by hand-shake, rendez-vous pacing and channel capacities"],
         subs: vec![
-            sub("visible_at_delivery", tier.pick(30_000, 1_000_000), messy(3, 40), c06_check).rates(&[("ge2_lifecycles_one_ecu", 0.3), ("held_back_observed", 0.05)]).boxed(),
-            sub("visible_at_delivery_long", tier.pick(1_500, 50_000), messy(3, 400), c06_check).boxed(),
-            sub("consumer_thread", tier.pick(15_000, 400_000), messy(3, 60), c06_consumers).rates(&[("ge2_lifecycles", 0.3)]).boxed(),
+            sub("visible_at_delivery", tier.pick(100_000, 2_000_000), messy(3, 40), c06_check).rates(&[("ge2_lifecycles_one_ecu", 0.3), ("held_back_observed", 0.05)]).boxed(),
+            sub("visible_at_delivery_long", tier.pick(5_000, 100_000), messy(3, 400), c06_check).boxed(),
+            sub("consumer_thread", tier.pick(50_000, 800_000), messy(3, 60), c06_consumers).rates(&[("ge2_lifecycles", 0.3)]).boxed(),
         ],
         workers: 16,
     }
@@ -290,8 +290,8 @@ pub fn c07(tier: Tier) -> PropertyDef {
         rule: "M-TRACE-MESSY streams; oracle: histogram of delivered lifecycle ids vs. published table (every entry referenced, nr_msgs = count, sum = n, no nr_msgs==0 / value-less entry), listing via get_sorted_lifecycles_as_vec: no panic, permutation of the table, resumed lifecycle (hook resume_origin_id) after its origin, ordered by start time when no resume. Non-trivial: >=3 lifecycles and a merge or a resume.",
         assumptions: vec!["resume origin read through the adlt_verif hook Lifecycle::resume_origin_id"],
         subs: vec![
-            sub("table_short", tier.pick(80_000, 2_000_000), messy(3, 40), c07_check).rates(&[("merge_happened", 0.02), ("has_resume", 0.02)]).boxed(),
-            sub("table_long", tier.pick(6_000, 150_000), messy(2, 400), c07_check).rates(&[("gt20_lifecycles", 0.2), ("has_resume", 0.2), ("resume_start_le_origin_start", 0.02)]).boxed(),
+            sub("table_short", tier.pick(600_000, 8_000_000), messy(3, 40), c07_check).rates(&[("merge_happened", 0.02), ("has_resume", 0.02)]).boxed(),
+            sub("table_long", tier.pick(40_000, 500_000), messy(2, 400), c07_check).rates(&[("gt20_lifecycles", 0.2), ("has_resume", 0.2), ("resume_start_le_origin_start", 0.02)]).boxed(),
         ],
         workers: 16,
     }
@@ -302,7 +302,7 @@ pub fn c08(tier: Tier) -> PropertyDef {
         rule: "M-TRACE-CLEAN: 1..4 ECUs x 1..6 boots x 1..40 messages, off-time >= 1 ms after the last reception of the previous boot, per-boot delay 0..120 s, timestamps in any order incl. 0, boot durations up to 4000 s, ECUs interleaved by a choice sequence; oracle = generator ground truth (one lifecycle per boot, every message assigned to its boot, start = boot+delay, end = start+max timestamp, nr_msgs). Non-trivial: (>=2 boots on an ECU and >=2 ECUs) or a boot starting with timestamp 0 or unsorted timestamps within a boot.",
         assumptions: vec!["next boot time >= last reception of the previous boot + off (see DESIGN 4/C08 domain note)"],
         subs: vec![
-            sub("clean_exact", tier.pick(100_000, 3_000_000), clean(4, 6, 40), c08_check).rates(&[("ge2_boots", 0.4), ("ge2_ecus", 0.4), ("first_timestamp_zero", 0.1), ("unsorted_within_boot", 0.3), ("tiny_boot", 0.1)]).boxed(),
+            sub("clean_exact", tier.pick(500_000, 8_000_000), clean(4, 6, 40), c08_check).rates(&[("ge2_boots", 0.4), ("ge2_ecus", 0.4), ("first_timestamp_zero", 0.1), ("unsorted_within_boot", 0.3), ("tiny_boot", 0.1)]).boxed(),
         ],
         workers: 16,
     }
